@@ -218,7 +218,7 @@ func TestVerifC13(t *testing.T) {
 		check(id, list, len(idx)%3)
 	})
 
-	n := r.Pick(2000, 300000)
+	n := r.Pick(2000, 1500000)
 	rr := r.Rand("c13", "random")
 	for i := 0; i < n; i++ {
 		m := 1 + rr.Intn(40)
@@ -359,7 +359,7 @@ func TestVerifC14(t *testing.T) {
 		}
 		check("perm/"+vKey(idx), list, len(idx)%len(statics))
 	})
-	n := r.Pick(2000, 300000)
+	n := r.Pick(2000, 1500000)
 	rr := r.Rand("c14", "random")
 	for i := 0; i < n; i++ {
 		m := 1 + rr.Intn(40)
@@ -488,7 +488,7 @@ func TestVerifC15(t *testing.T) {
 		}
 		check("perm/"+vKey(idx), list, len(idx)%3)
 	})
-	n := r.Pick(2000, 300000)
+	n := r.Pick(2000, 1500000)
 	rr := r.Rand("c15", "random")
 	for i := 0; i < n; i++ {
 		m := 1 + rr.Intn(30)
